@@ -1,0 +1,131 @@
+//go:build verif
+// +build verif
+
+// Contracts for deductive verification of package plan (comment-only; compiled only
+// with the build tag "verif"). Grammar: /verif/DESIGN.md, Appendix B.
+
+package plan
+
+// ---------------------------------------------------------------- C01 list kernel
+// table-index lists are strictly increasing []int; membership is mem(list, x)
+//@ pure sorted(l []int) bool = forall(a, 0, len(l), forall(b, a+1, len(l), l[a] < l[b]))
+
+//@ property C01: makeList, interList, unionList, (*RouteResult).Inter, (*RouteResult).Union, mergeBinaryOperationRouteResult
+
+// ---------------------------------------------------------------- C01 routing soundness
+// Assumed shape of a loaded rule (established by the router's constructors, see C10): the sub-table list is
+// strictly increasing and non-empty, first/last are its ends; range placement is monotone in the key order.
+//@ axiom subTablesWF: forall(r router.Rule, sorted(subTables(r)) && len(subTables(r)) > 0 && firstIdx(r) == subTables(r)[0]
+//@        && lastIdx(r) == subTables(r)[len(subTables(r))-1] && -(1<<32) <= firstIdx(r) && lastIdx(r) <= 1<<32)
+//@ axiom rangeMonotone: forall(s router.Shard, forall(a interface{}, forall(b interface{},
+//@        implements(s, router.RangeShard) && placeOK(s, a) && placeOK(s, b) && !klt(s, b, a) ==> place(s, a) <= place(s, b))))
+//@ axiom kltAsym: forall(s router.Shard, forall(a interface{}, forall(b interface{}, klt(s, a, b) ==> !klt(s, b, a))))
+//@ axiom placeBounded: forall(s router.Shard, forall(a interface{}, placeOK(s, a) ==> -(1<<32) <= place(s, a) && place(s, a) <= 1<<32))
+// a physical table that exists for the rule and holds key k
+//@ pure holdsKey(rule router.Rule, k interface{}, list []int) bool =
+//@        (placeOK(shardOf(rule), k) && mem(subTables(rule), place(shardOf(rule), k))) ==> mem(list, place(shardOf(rule), k))
+
+// the Go value of a literal of the statement (util.GetValueExprResult), as an uninterpreted function of the AST node
+//@ pure valueOf(e *driver.ValueExpr) interface{}
+//@ trusted github.com/XiaoMi/Gaea/util.GetValueExprResult
+//@   params n
+//@   pure-call
+//@   ensures ret1 == nil ==> ret0 == valueOf(n)
+
+//@ property C01: adjustShardIndex, getFindTableIndexesFunc$1, getShardBetweenExprRouteResult
+
+// BETWEEN l AND r keeps every table holding a key with l <= k <= r; NOT BETWEEN every table holding k < l or k > r
+//@ func getShardBetweenExprRouteResult
+//@   assigns \nothing
+//@   requires rule != nil && n != nil && implements(shardOf(rule), router.RangeShard)
+//@   ensures case between: ret1 == nil && !n.Not ==> forall(k interface{},
+//@        (!klt(shardOf(rule), k, valueOf(unbox(n.Left, *driver.ValueExpr))) && !klt(shardOf(rule), valueOf(unbox(n.Right, *driver.ValueExpr)), k)) ==> holdsKey(rule, k, ret0))
+//@   ensures case notbetween: ret1 == nil && n.Not ==> forall(k interface{},
+//@        (klt(shardOf(rule), k, valueOf(unbox(n.Left, *driver.ValueExpr))) || klt(shardOf(rule), valueOf(unbox(n.Right, *driver.ValueExpr)), k)) ==> holdsKey(rule, k, ret0))
+
+//@ func adjustShardIndex
+//@   assigns \nothing
+//@   requires placeOK(s, value) && index == place(s, value) && implements(s, router.RangeShard)
+//@   ensures ret0 == index || ret0 == index - 1
+//@   ensures forall(k interface{}, placeOK(s, k) && klt(s, k, value) ==> place(s, k) <= ret0)
+
+// the closure returned by getFindTableIndexesFunc; op is the captured comparison operator (column OP v)
+//@ func getFindTableIndexesFunc$1
+//@   assigns \nothing
+//@   ensures case othercolumn: ret1 == nil && shardCol(rule) != columnName ==> ret0 == subTables(rule)
+//@   ensures case eq: ret1 == nil && shardCol(rule) == columnName && op == opcode.EQ ==> len(ret0) == 1 && ret0[0] == place(shardOf(rule), v)
+//@   ensures case lt: ret1 == nil && shardCol(rule) == columnName && op == opcode.LT ==>
+//@        forall(k interface{}, klt(shardOf(rule), k, v) ==> holdsKey(rule, k, ret0))
+//@   ensures case le: ret1 == nil && shardCol(rule) == columnName && op == opcode.LE ==>
+//@        forall(k interface{}, !klt(shardOf(rule), v, k) ==> holdsKey(rule, k, ret0))
+//@   ensures case gt: ret1 == nil && shardCol(rule) == columnName && op == opcode.GT ==>
+//@        forall(k interface{}, klt(shardOf(rule), v, k) ==> holdsKey(rule, k, ret0))
+//@   ensures case ge: ret1 == nil && shardCol(rule) == columnName && op == opcode.GE ==>
+//@        forall(k interface{}, !klt(shardOf(rule), k, v) ==> holdsKey(rule, k, ret0))
+//@   ensures case otherop: ret1 == nil && shardCol(rule) == columnName && op != opcode.EQ && op != opcode.LT && op != opcode.LE
+//@        && op != opcode.GT && op != opcode.GE ==> ret0 == subTables(rule)
+
+//@ func unionList
+//@   assigns \nothing
+//@   requires sorted(l1) && sorted(l2)
+//@   loop 0(i,j) invariant 0 <= i && i <= len(l1) && 0 <= j && j <= len(l2) && len(l3) <= i + j && cap(l3) == len(l1) + len(l2)
+//@   loop 0(i,j) invariant case fresh:    fresh(l3)
+//@   loop 0(i,j) invariant case sorted:   sorted(l3)
+//@   loop 0(i,j) invariant case below:    forall(a, 0, len(l3), (i < len(l1) ==> l3[a] < l1[i]) && (j < len(l2) ==> l3[a] < l2[j]))
+//@   loop 0(i,j) invariant case sound:    forall(a, 0, len(l3), mem(l1, l3[a]) || mem(l2, l3[a]))
+//@   loop 0(i,j) invariant case complete1: forall(a, 0, i, mem(l3, l1[a]))
+//@   loop 0(i,j) invariant case complete2: forall(b, 0, j, mem(l3, l2[b]))
+//@   ensures case sorted:    sorted(ret0)
+//@   ensures case sound:     forall(x int, mem(ret0, x) ==> mem(l1, x) || mem(l2, x))
+//@   ensures case complete1: forall(x int, mem(l1, x) ==> mem(ret0, x))
+//@   ensures case complete2: forall(x int, mem(l2, x) ==> mem(ret0, x))
+
+//@ func (*RouteResult).Inter
+//@   requires r != nil && sorted(r.indexes) && sorted(indexes)
+//@   assigns r.indexes
+//@   ensures case sorted:   sorted(r.indexes)
+//@   ensures case sound:    forall(x int, mem(r.indexes, x) ==> mem(old(r.indexes), x) && mem(indexes, x))
+//@   ensures case complete: forall(x int, mem(old(r.indexes), x) && mem(indexes, x) ==> mem(r.indexes, x))
+
+//@ func (*RouteResult).Union
+//@   requires r != nil && sorted(r.indexes) && sorted(indexes)
+//@   assigns r.indexes
+//@   ensures case sorted:    sorted(r.indexes)
+//@   ensures case sound:     forall(x int, mem(r.indexes, x) ==> mem(old(r.indexes), x) || mem(indexes, x))
+//@   ensures case complete1: forall(x int, mem(old(r.indexes), x) ==> mem(r.indexes, x))
+//@   ensures case complete2: forall(x int, mem(indexes, x) ==> mem(r.indexes, x))
+
+// AND may prune with either side; OR may prune only when both sides prune (otherwise: no pruning).
+// A side "has" a result when it is a sound over-approximation of the tables its condition can match.
+//@ func mergeBinaryOperationRouteResult
+//@   requires (lHas ==> sorted(lResult)) && (rHas ==> sorted(rResult))
+//@   ensures case sorted: ret0 ==> sorted(ret1)
+//@   ensures case and:    ret0 && op == opcode.LogicAnd ==> forall(x int, ((lHas ==> mem(lResult, x)) && (rHas ==> mem(rResult, x))) ==> mem(ret1, x))
+//@   ensures case or:     ret0 && op == opcode.LogicOr ==> forall(x int, ((lHas && mem(lResult, x)) || (rHas && mem(rResult, x))) ==> mem(ret1, x))
+//@   ensures case orboth: ret0 && op == opcode.LogicOr ==> lHas && rHas
+//@   ensures case other:  ret0 ==> op == opcode.LogicAnd || op == opcode.LogicOr
+
+//@ func makeList
+//@   assigns \nothing
+//@   requires -(1<<40) <= start && start <= 1<<40 && -(1<<40) <= end && end <= 1<<40
+//@   loop 0(i) invariant start <= i && i <= end && len(list) == end - start
+//@   loop 0(i) invariant forall(x, 0, i - start, list[x] == start + x)
+//@   loop 0(i) invariant case mem: forall(x int, start <= x && x < i ==> mem(list, x))
+//@   ensures case len:     len(ret0) == ite(start >= end, 0, end - start)
+//@   ensures case content: forall(x, 0, len(ret0), ret0[x] == start + x)
+//@   ensures case mem:     forall(x int, start <= x && x < end ==> mem(ret0, x))
+//@   ensures case sorted:  sorted(ret0)
+
+//@ func interList
+//@   assigns \nothing
+//@   requires sorted(l1) && sorted(l2)
+//@   loop 0(i,j) invariant 0 <= i && i <= len(l1) && 0 <= j && j <= len(l2) && len(l3) <= i && len(l3) <= j && cap(l3) == len(l1) + len(l2)
+//@   loop 0(i,j) invariant case fresh:   fresh(l3)
+//@   loop 0(i,j) invariant case sorted:  sorted(l3)
+//@   loop 0(i,j) invariant case below:   forall(a, 0, len(l3), (i < len(l1) ==> l3[a] < l1[i]) && (j < len(l2) ==> l3[a] < l2[j]))
+//@   loop 0(i,j) invariant case sound:   forall(a, 0, len(l3), mem(l1, l3[a]) && mem(l2, l3[a]))
+//@   loop 0(i,j) invariant case complete: forall(a, 0, i, forall(b, 0, len(l2), l1[a] == l2[b] ==> (b < j && mem(l3, l1[a]))))
+//@   loop 0(i,j) invariant case complete2: forall(b, 0, j, forall(a, 0, len(l1), l1[a] == l2[b] ==> a < i))
+//@   ensures case sorted:   sorted(ret0)
+//@   ensures case sound:    forall(x int, mem(ret0, x) ==> mem(l1, x) && mem(l2, x))
+//@   ensures case complete: forall(x int, mem(l1, x) && mem(l2, x) ==> mem(ret0, x))
